@@ -153,6 +153,16 @@ def case_update(dim, shape):
             pen(vorticity_field=w2, penalised_velocity_field=up, velocity_field=u, prefactor=p)
             if np.any(w2 != w):
                 fails.append(Fail(f"update{s}:penalised-vs-forcing", "update_from_penalised(w, up, u, p) != update_from_forcing(w, up - u, p)", component=c, impulse=idx))
+            if (c, idx) == (0, cells[len(cells) // 2]) or (c, idx) == (dim - 1, cells[len(cells) // 3]):
+                # the same two identities through POSITIONAL calls in the documented order
+                # (vorticity, [penalised velocity,] velocity / forcing, prefactor)
+                w3, w4 = w0.copy(), w0.copy()
+                upd(w3, f, p)
+                pen(w4, up, u, p)
+                if np.any(w3 != w) or np.any(w4 != w):
+                    fails.append(Fail(f"update{s}:positional-call", "the update kernels called positionally (vorticity, [penalised velocity,] velocity, prefactor) differ from the keyword calls", component=c, impulse=idx,
+                                      forcing_variant_differs=bool(np.any(w3 != w)), penalised_variant_differs=bool(np.any(w4 != w))))
+                trans += 2
             states += 1
             trans += 3
     if nz == 0 and not fails:
